@@ -27,6 +27,7 @@ struct HistWorld : World {
         p.prop = prop; p.world = "HIST"; p.seed = seed;
         Rng master(seed);
         Rng cfg = master.fork("config"), sch = master.fork("scheduler"), ar = master.fork("args");
+        int len_cap = 0;
         std::vector<W> w = base_weights();
         // kernel
         int kr = (int)cfg.below(10);
@@ -54,6 +55,7 @@ struct HistWorld : World {
         if (prop == "C07") { setw(w, "FAULT_LOAD", 30); setw(w, "P_CREATE_PERSISTENT", 4); setw(w, "GC", 4); setw(w, "BU", 0); mulw(w, "SWAP_", 0); setw(w, "SET_E", 0); setw(w, "SET_F", 0); setw(w, "SET_C", 0); }
         if (prop == "C18") { setw(w, "SWEEP", 24); setw(w, "P_CREATE_PERSISTENT", 4); setw(w, "GC", 4); setw(w, "BU", 0); mulw(w, "SWAP_", 0); setw(w, "SET_E", 0); setw(w, "SET_F", 0); setw(w, "SET_C", 0); }
         if (prop == "C01") setw(w, "RESTART", 1);
+        if (prop == "C20") { setw(w, "BU", 0); setw(w, "CLEAR", 0); setw(w, "P_REQUEST", 6); setw(w, "P_CREATE_PERSISTENT", 2); len_cap = 40; }
         if (p.kernel == "tet") { setw(w, "ADD_HEX", 0); setw(w, "ADD_PRISM", 0); setw(w, "ADD_PYR", 0); setw(w, "SET_F", 0); setw(w, "SET_C", 0); }
         if (p.kernel == "hex") { setw(w, "ADD_TET", 0); setw(w, "ADD_PRISM", 0); setw(w, "ADD_PYR", 0); setw(w, "SET_F", 0); setw(w, "SET_C", 0); for (auto &x : w) if (!strcmp(x.kind, "ADD_HEX")) x.w = std::max(x.w, 12); }
         // swarm: every run turns some op kinds off and emphasises others
@@ -69,6 +71,8 @@ struct HistWorld : World {
         p.cfg["salt"] = (long)cfg.below(16);
         int len = 6 + (int)cfg.below(thorough ? 115 : 75);
         bool heavy = prop == "C01" || prop == "C05" || prop == "C08" || prop == "C09" || prop == "C10" || prop == "C12" || prop == "C15" || prop == "C16";
+        if (len_cap && len > len_cap) len = len_cap;
+        if (prop == "C20") p.cfg["bu0"] = 7;
         if (prop == "C06") p.cfg["big_ok"] = thorough ? 1 : 0;
         if (prop == "C18") p.cfg["sweep_complete"] = thorough ? 1 : 0;
         if (prop == "C06" || prop == "C07" || prop == "C18") { p.cfg["bu0"] = 7; len = 4 + (int)cfg.below(thorough ? 40 : 24); }
